@@ -347,7 +347,10 @@ def r02_4(prog, rep, m, F, fn):
             and any(callee_name(c) in ("take_msb_bytes", "take_msb_bytes_at") for s in br[0].body for c in ast.walk(s) if isinstance(c, ast.Call)) \
             and "_decode_object_header(raw)" in src
         ref = [x for x in ast.walk(f.node) if isinstance(x, ast.If) and norm(x.test) == "type_num == REF_DELTA"]
-        ok_ref = bool(ref) and ("hash_size" in norm(ref[0], 2000))
+        # the base name is as long as the hash: the size of the read/slice in this branch derives from the hash, it is not a literal
+        HASHY = ("hash_size", "hash_func", "digest", "oid_length", "hash_len", "object_format")
+        ok_ref = bool(ref) and any(h_ in norm(ref[0], 2000) for h_ in HASHY) and not any(
+            isinstance(c, ast.Call) and callee_name(c) in ("read_all", "read_some", "read") and c.args and isinstance(c.args[0], ast.Constant) for c in ast.walk(ref[0]))
         rep.ob("R02.4", PACK, f.qual, "OFS_DELTA reads a second msb-terminated group and decodes it with the offset codec; REF_DELTA reads hash_size bytes",
                ok and ok_ref, "", f.node.lineno)
     # offset varint: canonical features of git's varint.c offset encoding
